@@ -76,6 +76,8 @@ type verifReq struct {
 	Harness string
 	Vec     map[string]uint64
 	Prog    *verifProgReq
+	Chunks  []string
+	Globals []string
 }
 
 type verifTok struct {
@@ -130,6 +132,23 @@ func verifServe(req *verifReq) (resp map[string]interface{}) {
 		resp["Reached"] = verifReached
 	case "prog":
 		verifRunProg(req.Prog, resp)
+	case "c18":
+		verifVec = req.Vec
+		o, gl := verifC18Run(req.Chunks, []Value{Int32(int32(req.Vec["in0"])), Int32(int32(req.Vec["in1"]))}, req.Globals)
+		resp["Out"] = o.out
+		resp["Err"] = verifErrText(o.evalErr)
+		var rets, gs []string
+		for _, r := range o.rets {
+			rets = append(rets, fmt.Sprintf("t%d:%s", int(r.t.base()), r.String()))
+		}
+		for _, g := range gl {
+			if g.t.base() == TypeFunc {
+				gs = append(gs, "func")
+			} else {
+				gs = append(gs, fmt.Sprintf("t%d:%s", int(g.t.base()), g.String()))
+			}
+		}
+		resp["Rets"], resp["Gl"] = rets, gs
 	case "list":
 		var names []string
 		for n := range verifHarnesses {
